@@ -8,19 +8,20 @@ import vcheck as V
 _M_ITEM = re.compile(r"\((\d+)(?:%N)?,\((\d+)(?:%N)?,(\d+)(?:%N)?,(\w+)\)\)")
 
 NODE = {"C14": {1: "JSONFormatter", 2: "JSONFormatterFilter", 3: "Filter", 4: "FormatTable"},
-        "C18": {1: "cloudevents-json", 2: "cloudevents-text", 3: "invalid-config", 4: "sequence"}}
+        "C18": {1: "cloudevents-json", 2: "cloudevents-text", 3: "invalid-config", 4: "sequence", 5: "concurrent"}}
 
 ARGS = {
     ("C14", "quick"): ["-modes", "grid,strings,random,table", "-random", "700", "-depth", "3", "-table", "150"],
     ("C14", "thorough"): ["-modes", "grid,strings,random,table", "-random", "20000", "-depth", "4", "-table", "2000"],
-    ("C18", "quick"): ["-modes", "grid,random", "-random", "300"],
-    ("C18", "thorough"): ["-modes", "grid,random", "-random", "8000", "-depth", "4"],
+    ("C18", "quick"): ["-modes", "grid,random,conc", "-random", "300", "-conc-per", "2500"],
+    ("C18", "thorough"): ["-modes", "grid,random,conc", "-random", "8000", "-depth", "4", "-conc-per", "40000"],
 }
-PRIORITY = ["KModel", "KErr", "KFwd", "KBytes", "KDoc", "KSignIn", "KStoredMutated", "KOther", "KFrame", "KLine", "KParse", "KFields", "KSer", "KIndent", "KDecode", "KLww", "KFresh"]
+PRIORITY = ["KModel", "KErr", "KFwd", "KErrStored", "KBytes", "KDoc", "KSignIn", "KStoredMutated", "KOther", "KFrame", "KLine", "KParse", "KFields", "KSer", "KIndent", "KDecode", "KLww", "KFresh"]
 MEANING = {
     "KModel": "harness defect: generated value outside the model's grammar",
     "KErr": "an error is returned where the model returns none, or the reverse",
     "KFwd": "the event is forwarded where the model drops/fails it, or the reverse",
+    "KErrStored": "Process returned an error (not the predicate's) yet the event's format table is not what it was before the call: a failed event carries a new value",
     "KBytes": "the bytes stored under json differ from Json.render of the envelope",
     "KDoc": "the stored cloudevents document differs from the model's document (or is stored / not stored contrary to the model)",
     "KSignIn": "the signer was not called with exactly the unsigned document, or was called for an unlisted type",
@@ -34,7 +35,7 @@ MEANING = {
     "KDecode": "Go's own decoder disagrees with the expected image",
     "KLww": "Format result or final table is not last-writer-wins",
     "KIndent": "the text format is not indented / the json format is not a single line",
-    "KFresh": "a fresh id is empty or repeated",
+    "KFresh": "a fresh id is empty or handed out twice (sequentially, or by one FormatterFilter shared by 8 goroutines), or Process panicked there",
 }
 DRIFT = ("KBytes", "KDoc", "KSignIn")
 DRIVER = {"C14": "fmth", "C18": "cloudh"}
@@ -194,7 +195,7 @@ RULE = {
             "string sweep and forced FormattedAs/Format schedules; Coq compares the stored bytes with Json.render byte for byte and parses them back. "
             "distinct_nontrivial = distinct cases whose payload is nested, unencodable, a non-empty string, or whose type needs escaping; table schedules with >1 op."),
     "C18": ("Process calls on the real cloudevents.FormatterFilter over the product payload kind x format x schema x source x signer x listed x predicate, "
-            "plus random payload data and the list of all fresh ids the run observed (distinctness); the stored document is compared with CloudEvents.process byte for byte, serialized is "
+            "plus random payload data, the list of all fresh ids the run observed (distinctness) and one FormatterFilter shared by 8 goroutines (duplicate ids / panics, counted by the harness); the stored document is compared with CloudEvents.process byte for byte, serialized is "
             "base64url-decoded inside Coq and compared with the unsigned document and with the signer's recorded input. "
             "distinct_nontrivial = distinct cases with a valid configuration (the document is built)."),
 }
@@ -276,7 +277,10 @@ def replay(ctx, rec, path):
     open(corpus, "w").write(json.dumps(rec["case"]) + "\n")
     rc, out = V.run([binp, "-replay", path])
     print(out)
-    rc, out = V.run([binp, "-out", cdir, "-modes", "", "-corpus", corpus])
+    if (rec.get("case") or {}).get("gen") == "concurrent-ids":
+        rc, out = V.run([binp, "-out", cdir, "-modes", "conc"])
+    else:
+        rc, out = V.run([binp, "-out", cdir, "-modes", "", "-corpus", corpus])
     summ = json.load(open(os.path.join(cdir, "cases_summary.json")))
     mism, failures = V.eval_shards(ctx, summ["files"], parse=_M_ITEM)
     print("model vs implementation mismatches (case, step, node, kind):", [(c, s, NODE[prop].get(int(o), o), k) for c, s, o, k in mism], failures)
